@@ -25,10 +25,19 @@
 From Coq Require Import List Arith NArith ZArith Bool PeanoNat.
 Import ListNotations.
 Require Import Verif.Base.Res Verif.Base.Cases.
+Require Export Verif.gen.ExtractFns.
 
-(** ---- costs: u64 with saturating add ---- *)
+(** ---- costs ----
+    The arithmetic of the MODEL is regenerated from src/extract.rs on every run (gen/ExtractFns.v):
+    [cost_combine] (`Cost::combine` for u64), [tac_fold] (`TreeAdditiveCostModel::fold`),
+    [container_cost_default], [base_value_cost_default], [relax_improves] / [relax_vacant_updates]
+    (the update test of `bellman_ford`), [parent_cost_matches] / [rank_guard] (the tests of
+    `save_best_parent_edge`), [rank_init] / [rank_combine] / [rank_prim] (`compute_topo_rnk_*`).
+    The SPECIFICATION side ([tree_cost] below) is written by hand with an explicit saturating u64
+    sum; Extract/Proofs.v proves that the regenerated arithmetic is that sum ([cost_combine_sat],
+    [tac_fold_sum]), so a change of the Rust arithmetic breaks those lemmas. *)
 Definition MAXC : N := 18446744073709551615%N.   (* 2^64 - 1 = u64::MAX *)
-Definition sat_add (a b : N) : N := N.min (a + b) MAXC.
+Definition sat_add (a b : N) : N := N.min (a + b) MAXC.   (* specification: saturating u64 sum *)
 
 (** ---- e-graph as seen by the extractor ---- *)
 Inductive child := CClass (c : nat) | CPrim (z : Z).
@@ -65,28 +74,35 @@ Definition cs_set (s : cstate) (c : nat) (v : N * nat) : cstate :=
 
 Definition child_cost (s : cstate) (ch : child) : option N :=
   match ch with
-  | CPrim _ => Some 1%N
+  | CPrim _ => Some base_value_cost_default
   | CClass c => match s c with Some (v, _) => Some v | None => None end
   end.
 
-(** `fold(head_cost, |s, c| s.combine(c))` over the children costs, `None` if a child has none *)
-Fixpoint fold_cost (s : cstate) (acc : N) (args : list child) : option N :=
+(** `compute_cost_hyperedge`: `ch_costs.push(self.compute_cost_node(..)?)` for every child, then
+    `cost_model.fold(head, &ch_costs, enode_cost)` = regenerated [tac_fold] *)
+Fixpoint children_costs (s : cstate) (args : list child) : option (list N) :=
   match args with
-  | [] => Some acc
+  | [] => Some []
   | a :: tl => match child_cost s a with
                | None => None
-               | Some c => fold_cost s (sat_add acc c) tl
+               | Some c => match children_costs s tl with
+                           | None => None
+                           | Some cs => Some (c :: cs)
+                           end
                end
   end.
 
 Definition row_cost (g : graph) (s : cstate) (r : row) : option N :=
-  fold_cost s (fn_cost g (r_fn r)) (r_args r).
+  match children_costs s (r_args r) with
+  | None => None
+  | Some cs => Some (tac_fold cs (fn_cost g (r_fn r)))
+  end.
 
 (** rank of a child: base values 0; classes their stamp (usize::MAX when absent: never consulted
     for rows that have a cost, modelled as "no rank") *)
 Definition child_rank (s : cstate) (ch : child) : option nat :=
   match ch with
-  | CPrim _ => Some 0
+  | CPrim _ => Some rank_prim
   | CClass c => match s c with Some (_, k) => Some k | None => None end
   end.
 
@@ -95,7 +111,7 @@ Fixpoint max_rank (s : cstate) (acc : nat) (args : list child) : option nat :=
   | [] => Some acc
   | a :: tl => match child_rank s a with
                | None => None
-               | Some k => max_rank s (Nat.max acc k) tl
+               | Some k => max_rank s (rank_combine acc k) tl
                end
   end.
 
@@ -109,8 +125,8 @@ Definition relax_row (g : graph) (b : bf) (r : row) : bf :=
     | Some nc =>
         let doit := mkBF (cs_set (b_cs b) (r_cls r) (nc, S (b_cnt b))) (S (b_cnt b)) true in
         match b_cs b (r_cls r) with
-        | None => doit
-        | Some (oc, _) => if (nc <? oc)%N then doit else b
+        | None => if relax_vacant_updates then doit else b
+        | Some (oc, _) => if relax_improves nc oc then doit else b
         end
     end
   else b.
@@ -130,9 +146,9 @@ Fixpoint bellman_ford (fuel : nat) (g : graph) (s : cstate) (cnt : nat) : Res (c
 (** ---- parent edges ---- *)
 Definition is_parent (g : graph) (s : cstate) (c : nat) (r : row) : bool :=
   allowed g r && Nat.eqb (r_cls r) c &&
-  match s c, row_cost g s r, max_rank s 0 (r_args r) with
-  | Some (best, rk), Some rc, Some mr => N.eqb best rc && (mr <? rk)
-  | _, _, _ => false
+  match s c, max_rank s rank_init (r_args r) with
+  | Some (best, rk), Some mr => parent_cost_matches best (row_cost g s r) && rank_guard rk mr
+  | _, _ => false
   end.
 
 Definition parent_edge (g : graph) (s : cstate) (c : nat) : option row :=
